@@ -97,6 +97,7 @@ class Gen:
         self.label = 0
         self.objs = []          # (label, tag, root)  root in 'src','build'
         self.nodist = set()     # srcdir paths created with dist=False
+        self.nodist_dirs = set()  # directories searched by a find call with dist=False
         self.withdist = set()   # srcdir paths created with dist (or by an Edge string)
         self.refs = set()       # srcdir paths an edge consumes (generator's view; cross-check of the decoder)
         self.listed = set()     # find found/extra, extra_dist entries with dist
@@ -196,6 +197,8 @@ class Gen:
         names += [self.names.new('x', '_skip' + ext)]
         names += [self.names.new('p', '_windows' + ext)] if self.rng.random() < 0.6 else []
         names += ['other.txt']
+        if not spec['dist']:
+            self.nodist_dirs.add(norm(d, fd))
         self.touch(d, fd + '/')
         for n in names:
             self.touch(d, fd + '/' + n)
@@ -383,29 +386,32 @@ class Gen:
         return {'op': 'manz', 'arg': ('name', name), 'dist': dist, 'label': lab}
 
     def st_command(self, d):
-        lab = self.lab()
         step = self.rng.random() < 0.6
         nodes = []
         for _ in range(self.rng.randint(0, 2)):
             o = self.pick_obj(('file', 'source', 'header'))
             if o:
                 nodes.append(('obj', o[0]))
-        fresh = None
+        pre = []
         if self.rng.random() < 0.7:
             name = self.names.new('in', '.c.in')
             p = self.touch(d, name)
             dist = self.rng.random() < 0.85
             self.mark(p, dist)
             self.refs.add(p)
-            fresh = (name, dist)
+            flab = self.lab()
+            pre.append({'op': 'file', 'kind': 'source_file', 'arg': ('name', name), 'dist': dist, 'label': flab})
+            self.objs.append((flab, 'srcnolang', 'src'))
+            nodes.append(('obj', flab))
         files = [self.new_src(d, 'cf', '.dat', ref=True)[0] for _ in range(self.rng.randint(0, 2))]
         deps = self.dep_args(d)
+        lab = self.lab()
         if step:
             self.objs.append((lab, 'source', 'build'))
         else:
             self.objs.append((lab, 'phony', 'build'))
-        return {'op': 'command', 'step': step, 'nodes': nodes, 'fresh': fresh, 'files': files,
-                'deps': deps, 'label': lab, 'out': self.names.new('gen', '.c', plain=True)}
+        return pre + [{'op': 'command', 'step': step, 'nodes': nodes, 'files': files,
+                       'deps': deps, 'label': lab, 'out': self.names.new('gen', '.c', plain=True)}]
 
     def st_misc(self, d):
         o = self.pick_obj(('exe', 'libsh', 'libst', 'header', 'hdrdir', 'dir', 'man', 'file'))
@@ -442,7 +448,9 @@ class Gen:
                 self.gen_script(norm(d, sd), depth + 1)
             if i < n:
                 st = getattr(self, self.rng.choice(fns))(d)
-                if st:
+                if isinstance(st, list):
+                    stmts.extend(st)
+                elif st:
                     stmts.append(st)
         self.scripts[d] = stmts
         self.touch(d, 'build.bfg', '')
@@ -579,8 +587,6 @@ def render_stmt(st, d):
                                                          '' if st['dist'] else ', dist=False')
     if op == 'command':
         cmd = ["'cat'"] + [r_arg(a, d) for a in st['nodes']]
-        if st['fresh']:
-            cmd.append('source_file(%r%s)' % (st['fresh'][0], '' if st['fresh'][1] else ', dist=False'))
         kw = []
         if st['files']:
             kw.append('files=' + r_list(st['files'], d))
@@ -812,7 +818,7 @@ def check_project(rep, g, tag, regen=False):
         opened_scripts = set(p for p in opened if p.endswith('.bfg'))
         info.update(refs=len(refs), opened=len(opened), scripts=len(opened_scripts))
         def present(p):
-            if p in members or p in g.nodist:
+            if p in members or p in g.nodist or any(p.startswith(x + '/') for x in g.nodist_dirs):
                 return True
             # a directory is present when the unpacked archive has it: some member (or dist=False file) lies below it
             if os.path.isdir(os.path.join(src, p)):
@@ -867,7 +873,7 @@ def check_project(rep, g, tag, regen=False):
         os.mkdir(fresh)
         tf.extractall(fresh)
         usrc = os.path.join(fresh, prefix)
-        for p in sorted(g.nodist):
+        for p in sorted(g.nodist | g.nodist_dirs):
             sp = os.path.join(src, p)
             if p not in members and os.path.lexists(sp):
                 os.makedirs(os.path.dirname(os.path.join(usrc, p)), exist_ok=True)
@@ -967,10 +973,332 @@ def stage_system(rep, rng, n, regen_n):
     rep.stage('system', projects=n, regen_projects=regen_n)
 
 
+# ----------------------------------------------------------------------------- translation to the model
+KIND_NUM = {k: i for i, k in enumerate(KIND_IDS)}
+ROOTS = {'src': 0, 'build': 1, 'abs': 2}
+
+
+def m_node(root, path):
+    return [ROOTS[root], path]
+
+
+class ToModel:
+    """Flattens the scripts of a generated project in execution order into model calls."""
+
+    def __init__(self, g, walks, hit):
+        self.g, self.walks, self.hit = g, list(walks), hit
+        self.idx = {}       # label -> log index
+        self.paths = {}     # label -> (root, path) of a file statement given by name
+        self.calls = []
+        self.nfind = 0
+        self.run('')
+
+    def arg(self, a, d, dep=False):
+        t, v = a
+        if t == 'name':
+            return [0, m_node('src', norm('' if dep else d, v))]
+        if t == 'spath':
+            return [0, m_node('src', v.rstrip('/'))]
+        if t == 'bpath':
+            return [0, m_node('build', v.rstrip('/'))]
+        return [1, self.idx[v]]
+
+    def args(self, l, d, dep=False):
+        return [self.arg(a, d, dep) for a in l]
+
+    def incs(self, l, d):
+        out = []
+        for a in l:
+            if a[0] == 'obj' and self.g.tag_of(a[1]) == 'header':
+                r, p = self.paths[a[1]]
+                out.append([0, m_node(r, os.path.dirname(p))])
+            out.append(self.arg(a, d))
+        return out
+
+    def files_flag(self, l, d):
+        out = []
+        for a in l:
+            isobj = a[0] in ('obj', 'objs') and self.g.tag_of(a[1]) == 'object'
+            out.append([self.arg(a, d), isobj])
+        return out
+
+    def find(self, spec):
+        ev = self.walks[self.nfind] if self.nfind < len(self.walks) else []
+        self.nfind += 1
+        # a lambda filter is a new function object in every run: its FileFilter never equals the cached one
+        hit = bool(self.hit and spec['cache'] and spec.get('filter') != 'lambda')
+        return [[[m_node(r, p), inc] for (r, p, inc) in ev], bool(spec['cache']), hit]
+
+    def opt(self, a, d):
+        return [] if a is None else [self.arg(a, d)]
+
+    def push(self, st):
+        self.idx[st['label']] = len(self.idx)
+
+    def run(self, d):
+        for st in self.g.scripts[d]:
+            op = st['op']
+            c = None
+            if op == 'sub':
+                sd = norm(d, st['dir'])
+                self.calls.append([12, m_node('src', norm(sd, 'build.bfg'))])
+                self.run(sd)
+                continue
+            if op == 'file':
+                a = self.arg(st['arg'], d)
+                if a[0] == 0:
+                    self.paths[st['label']] = ('src' if a[1][0] == 0 else 'build', a[1][1])
+                else:
+                    src = st['arg'][1]
+                    if src in self.paths:
+                        self.paths[st['label']] = self.paths[src]
+                c = [0, KIND_NUM[st['kind']], a, st['dist']]
+            elif op == 'dirinc':
+                sp = st['spec']
+                c = [1, st['hdr'], m_node('src', norm(d, sp['dir'])), [self.find(sp)], sp['dist']]
+            elif op == 'find':
+                c = [3 if st['paths'] else 2, self.find(st['spec']), st['spec']['dist']]
+            elif op == 'extra_dist':
+                c = [4, self.args(st['files'], d),
+                     [[m_node('src', norm(d, a[1])), self.find({'cache': True})] for a in st['dirs']]]
+            elif op == 'object':
+                c = [5, self.arg(st['file'], d), bool(st['lang']), self.incs(st['includes'], d), self.opt(st['pch'], d),
+                     self.args(st['deps'], d, dep=True), 'o']
+            elif op == 'objects':
+                c = [6, self.files_flag(st['files'], d), self.incs(st['includes'], d), [], ['o']]
+            elif op == 'pch':
+                c = [7, self.arg(st['file'], d), self.opt(st['source'], d), self.incs(st['includes'], d), 'o']
+            elif op == 'link':
+                c = [8, self.files_flag(st['files'], d), self.incs(st['includes'], d), self.args(st['libs'], d),
+                     self.opt(st['pch'], d), self.args(st['deps'], d, dep=True), 'o']
+            elif op == 'copy':
+                c = [9, self.arg(st['arg'], d), self.args(st['deps'], d, dep=True), 'o']
+            elif op == 'manz':
+                c = [10, self.arg(st['arg'], d), st['dist'], 'o']
+            elif op == 'command':
+                c = [11, self.args(st['files'], d), [self.idx[a[1]] for a in st['nodes']],
+                     self.args(st['deps'], d, dep=True), 'o']
+            elif op == 'misc':
+                if st['fn'] in ('install', 'alias'):
+                    c = [13, self.idx[st['arg'][1]]]
+            if c is not None:
+                self.calls.append(c)
+            if 'label' in st:
+                self.push(st)
+
+
+# ----------------------------------------------------------------------------- in-process execution of the real code
+class InProc:
+    """Runs bfg9000.build.configure_build (split so that the find cache can be pre-filled) in this process."""
+
+    def __init__(self):
+        from bfg9000 import build as bmod
+        from bfg9000.builtins import builtin, find as findmod
+        from bfg9000.build_inputs import BuildInputs, Regenerating
+        from bfg9000.environment import Environment
+        from bfg9000.path import Path, Root, InstallRoot, abspath
+        self.__dict__.update(locals())
+        if '/venv/bin' not in os.environ.get('PATH', '').split(':'):
+            os.environ['PATH'] = '/venv/bin:' + os.environ.get('PATH', '')
+        bmod.builtin_init()
+
+    def env(self, src, build):
+        P = self.Path
+        e = self.Environment(P('/venv/bin', self.Root.absolute), 'make', None, self.abspath(src), self.abspath(build))
+        e.finalize({i: P('/usr/local/' + i.name, self.Root.absolute) if i.name != 'prefix' else P('/usr/local', self.Root.absolute)
+                    for i in self.InstallRoot}, (True, False), False, [])
+        return e
+
+    def configure(self, src, build, prefill=None):
+        """Returns (BuildInputs, seen_paths + opts_paths, recorded walk events per _find_files call)."""
+        from itertools import chain
+        from unittest import mock
+        bmod, builtin = self.bmod, self.builtin
+        os.makedirs(build, exist_ok=True)
+        env = self.env(src, build)
+        walks = []
+        real = self.findmod._find_files
+        FR = self.findmod.FindResult
+
+        def rec(env_, filt, seen_dirs=None):
+            ev = []
+            walks.append(ev)
+            for path, matched in real(env_, filt, seen_dirs):
+                if matched in (FR.include, FR.not_now):
+                    ev.append((self.rootname(path), path.suffix, matched == FR.include))
+                yield path, matched
+
+        cwd = os.getcwd()
+        try:
+            with mock.patch.object(self.findmod, '_find_files', rec):
+                parser, opts_paths = bmod._execute_options(env)
+                argv = parser.parse_args(env.extra_args)
+                bfgpath = self.Path('build.bfg', self.Root.srcdir)
+                b = self.BuildInputs(env, bfgpath)
+                ctx = builtin.BuildContext(env, b, argv, self.Regenerating.false)
+                if prefill is not None:
+                    # what find_check_cache does in a lazy regeneration: the saved filters are re-created from their
+                    # JSON form in the new context and the cache is filled with the current walk results
+                    from bfg9000.exceptions import SerializationError
+                    for ff, ent in prefill.items():
+                        try:
+                            ff2 = self.findmod.FileFilter.from_json(ff.to_json(), ctx)
+                        except SerializationError:
+                            continue
+                        b['find_cache'].add(ff2, [self.Path.from_json(i.to_json()) for i in ent.found],
+                                            [self.Path.from_json(i.to_json()) for i in ent.extra])
+                bmod.execute_file(ctx, bfgpath)
+                scripts = list(ctx.seen_paths) + list(opts_paths)
+                for i in chain(ctx.seen_paths[1:], opts_paths):
+                    b.add_bootstrap(i)
+        finally:
+            os.chdir(cwd)
+        return b, env, scripts, walks
+
+    def rootname(self, path):
+        r = path.root
+        return 'src' if r == self.Root.srcdir else ('build' if r == self.Root.builddir else 'abs')
+
+    def canon_path(self, p):
+        return [ROOTS[self.rootname(p)], p.suffix]
+
+    def observe(self, b, env, scripts, version):
+        from bfg9000.builtins import dist
+        from bfg9000.file_types import Node
+        from bfg9000.iterutils import iterate
+        members = [self.canon_path(i.path) for i in b.sources()]
+        cmd = dist._dist_command('gzip', b, None, env)
+        words = []
+        from bfg9000.tools.common import Command
+        for w in cmd:
+            if isinstance(w, Command):
+                words.append([0, 'doppel'])
+            elif isinstance(w, str):
+                words.append([0, w])
+            elif self.rootname(w) == 'src' and w.suffix == '':
+                words.append([1])
+            elif self.rootname(w) == 'build':
+                words.append([2, w.suffix])
+            else:
+                words.append(['?', repr(w)])
+        refs = set()
+        for e in b.edges():
+            for attr in ('file', 'files', 'user_files', 'includes', 'include_deps', 'pch', 'pch_source', 'libs',
+                         'user_libs', 'extra_deps', 'module_defs'):
+                v = getattr(e, attr, None)
+                for x in iterate(v):
+                    if isinstance(x, Node) and hasattr(x, 'path') and self.rootname(x.path) == 'src':
+                        refs.add(x.path.suffix)
+            for line in getattr(e, 'cmds', None) or []:
+                for x in iterate(line):
+                    for y in iterate(getattr(x, 'bits', None) or [x]):
+                        if isinstance(y, Node) and hasattr(y, 'path') and self.rootname(y.path) == 'src':
+                            refs.add(y.path.suffix)
+        for x in b['install'].explicit:
+            if hasattr(x, 'path') and self.rootname(x.path) == 'src':
+                refs.add(x.path.suffix)
+        return {'members': members, 'words': words, 'refs': sorted(refs),
+                'scripts': [self.canon_path(p) for p in scripts]}
+
+
+def d_node(x):
+    return [x[0], d_str(x[1])]
+
+
+def decode_run(raw):
+    if not raw:
+        return None
+    r = raw[0]
+    words = None
+    if r[5]:
+        words = [[w[0]] + ([d_str(w[1])] if len(w) > 1 else []) for w in r[5][0]]
+    return {'members': [d_node(x) for x in r[0]], 'nodist': [d_node(x) for x in r[1]],
+            'refs': sorted(set(d_str(x[1]) for x in r[2])), 'listed': [d_node(x) for x in r[3]],
+            'scripts': [d_node(x) for x in r[4]], 'words': words}
+
+
+def impl_fixed(ip):
+    """Does the implementation re-create cached extra entries (commit 491a34f)?  Probed on a two-file project."""
+    with project.Scratch('c18p') as s:
+        project.write_tree(s.src, {'build.bfg': "find_files('d/*.c', extra='*.h')\n", 'd/a.c': '', 'd/a.h': ''})
+        b1, _, _, _ = ip.configure(s.src, s.build)
+        b2, _, _, _ = ip.configure(s.src, s.build, prefill=dict(b1['find_cache'].items()))
+        return any(i.path.suffix == 'd/a.h' for i in b2.sources())
+
+
+def stage_w(rep, rng, n, fixed, ip):
+    """W-correspondence on n generated projects, each run fresh and with a pre-filled find cache."""
+    calls, impls, metas = [], [], []
+    with project.Scratch('c18w') as s:
+        for i in range(n):
+            g = Gen(random.Random(rng.getrandbits(48)), size=rng.choice([0.3, 0.6, 1.0]),
+                    special_rate=rng.choice([0.0, 0.25, 0.5])).generate()
+            src = os.path.join(s.root, 'p%d' % i)
+            bld = os.path.join(s.root, 'b%d' % i)
+            os.mkdir(src)
+            files = write_project(src, g)
+            try:
+                b1, env1, scr1, walks = ip.configure(src, bld)
+                o1 = ip.observe(b1, env1, scr1, g.version)
+                b2, env2, scr2, walks2 = ip.configure(src, bld, prefill=dict(b1['find_cache'].items()))
+                o2 = ip.observe(b2, env2, scr2, g.version)
+            except Exception as e:   # a generated script the implementation rejects is a harness problem
+                rep.count('W:rejected-script')
+                rep.fail('W: generated script rejected by the implementation: %r' % (e,),
+                         {'obligation': 'W:dist_run', 'files': files, 'error': repr(e)}, found_input=False)
+                continue
+            finally:
+                shutil.rmtree(src, ignore_errors=True)
+                shutil.rmtree(bld, ignore_errors=True)
+            opts = []
+            if '' in g.opt_scripts:
+                opts = [m_node('src', 'options.bfg')] + [m_node('src', norm(d, 'options.bfg'))
+                                                          for d in g.opt_scripts if d != '']
+            for hit, obs, wk in ((False, o1, walks), (True, o2, walks)):
+                tm = ToModel(g, wk, hit)
+                calls.append(('dist_run', [fixed, m_node('src', 'build.bfg'), tm.calls, opts, 'gzip', '.tar.gz',
+                                           'proj', [] if g.version is None else [g.version]]))
+                impls.append(obs)
+                metas.append((files, hit, tm.nfind, len(wk)))
+            canon = project_canon(g)
+            rep.case(canon, len(o1['members']) >= 5)
+            rep.count('W:projects')
+            rep.count('W:members', len(o1['members']))
+            rep.count('W:find-calls', len(walks))
+            rep.count('W:cache-hit-find-calls', len(walks) - len(walks2))
+            for st in (x for ss in g.scripts.values() for x in ss):
+                rep.count('W:stmt:' + st['op'] + (':' + st['kind'] if st['op'] == 'file' else ''))
+            if i < 2:
+                rep.sample('W project %d: members %s' % (i, ' '.join(m[1] for m in o1['members'][:12])))
+
+    def decode(name, raw):
+        r = decode_run(raw)
+        if r is None:
+            return None
+        return {k: r[k] for k in ('members', 'words', 'refs', 'scripts')}
+    dis = common.compare_model(rep, 'W:dist_run', calls, impls, decode, vm_limit=12)
+    for i, call, iv, mv in dis[:5]:
+        files, hit, nf, nw = metas[i]
+        diff = {k: (iv[k], (mv or {}).get(k)) for k in iv if not mv or iv[k] != mv.get(k)}
+        rep.fail('W: model and implementation disagree on a generated script (cache hits: %s): %s' % (
+            hit, json.dumps(diff, default=str)[:1500]),
+            {'obligation': 'W:dist_run', 'files': files, 'hit': hit, 'diff': diff}, found_input=False)
+    return len(dis)
+
+
 def run(rep):
     rng = random.Random(rep.seed)
     rep.proof_stage(coqchk=(rep.tier == 'thorough'))
     thorough = rep.tier == 'thorough'
+    ip = InProc()
+    fixed = impl_fixed(ip)
+    rep.stage('variant', impl_recreates_cached_extra=fixed)
+    if not fixed:
+        rep.fail('find_from_filter does not re-create cached extra entries: after a lazy regeneration the extra '
+                 'files of find_files drop out of the dist rule (DESIGN 7.4)',
+                 {'stage': 'probe', 'files': {'build.bfg': "find_files('d/*.c', extra='*.h')\n", 'd/a.c': '', 'd/a.h': ''},
+                  'repro': 'configure, add d/b.c, make dist: d/a.h is missing'}, classes=('find-cache-hit-extra',))
+    nd = stage_w(rep, rng, 150 if thorough else 40, fixed, ip)
     stage_system(rep, rng, 30 if thorough else 3, 8 if thorough else 1)
 
 
